@@ -7,6 +7,14 @@ from concurrent.futures import ThreadPoolExecutor
 import esrv
 
 PROPS_V = "Props/C12.v"
+# functions the hand-written model of this property was written against (normalised source stored under harness/corr/guards/;
+# a difference is reported as broken-correspondence: the theorems then no longer speak about the current source)
+SOURCE_GUARDS = [
+    ("esr/generation/custom_printer.py", "ESRPrinter._print_Add"),
+    ("esr/generation/custom_printer.py", "ESRPrinter._print_Mul"),
+    ("esr/generation/custom_printer.py", "ESRPrinter._print_Pow"),
+]
+
 TRANSLATORS = []
 IMPL = os.path.join(esrv.VERIF, "harness", "corr", "c12_impl.py")
 CASES_PER_FILE = 700
